@@ -128,8 +128,11 @@ impl<T> SourceText<T> where T: AsRef<str> {
 
     /// Returns the end position of the text.
     pub fn end_position(&self) -> Pos {
-        let end = self.metrics.end_position(self.as_str(), Pos::ZERO);
-        self.offset.shifted(end)
+        // Measure from the start position's page so that columns and tab stops
+        // on the first line continue from the start column.
+        let start = Pos { byte: 0, page: self.offset.page };
+        let end = self.metrics.end_position(self.as_str(), start);
+        Pos { byte: end.byte + self.offset.byte, page: end.page }
     }
 
     /// Returns the next column-aligned position after the given base position
